@@ -107,3 +107,172 @@ func capacityScenarios(rep *rt.Report) {
 		}
 	}
 }
+
+// depthScenarios: a key written once at the bottom of a chain of N committed blocks (N swept over every
+// value 1..70, well below the ancestor-link capacity), read at the tip, at every intermediate block and
+// through a child block / transaction / query cache, twice each; with mutable values the harness mutates
+// every object it is handed. A lookup that walks 20 or 40 blocks must answer like one that walks 2.
+// kind selects the value type (0 immutable string, 1.. mutable kinds of C07).
+func depthScenarios(rep *rt.Report, kinds []int, removal bool) {
+	commitV := func(sc *statecache.StateCache, hash, prev, key string, v statecache.Value, remove bool) {
+		bc := statecache.NewBlockCache(sc, statecache.Block{Hash: hash, PrevHash: prev})
+		tc := statecache.NewTransactionCache(bc)
+		if remove {
+			tc.Remove(key)
+		} else if v != nil {
+			tc.Set(key, v)
+		}
+		tc.Commit()
+		bc.Commit()
+	}
+	for _, kind := range kinds {
+		for n := 1; n <= 70; n++ {
+			sc := statecache.NewStateCache()
+			name := func(i int) string { return fmt.Sprintf("d%d", i) }
+			v0 := mkVal(kind, "bottom")
+			want := render(v0)
+			commitV(sc, name(0), "d-root", "k", v0, false)
+			mutate(v0)
+			wantAt := func(i int) string { return want }
+			if removal && n >= 3 {
+				// the key is rewritten at block 1 and removed at block 2: everything above must miss
+				v1 := mkVal(kind, "second")
+				commitV(sc, name(1), name(0), "k", v1, false)
+				mutate(v1)
+				commitV(sc, name(2), name(1), "k", nil, true)
+				w1 := render(mkVal(kind, "second"))
+				wantAt = func(i int) string {
+					switch {
+					case i == 0:
+						return want
+					case i == 1:
+						return w1
+					default:
+						return mustMiss
+					}
+				}
+				for i := 3; i < n; i++ {
+					commitV(sc, name(i), name(i-1), "j", statecache.String("x"), false)
+				}
+			} else {
+				for i := 1; i < n; i++ {
+					commitV(sc, name(i), name(i-1), "j", statecache.String("x"), false)
+				}
+			}
+			rep.Add("capacity_scenarios", 1)
+			desc := fmt.Sprintf("chain of %d committed blocks, k written at the bottom (value kind %d, removal variant %v)", n, kind, removal)
+			bad := ""
+			judge := func(what string, v statecache.Value, ok bool, i int) bool {
+				w := wantAt(i)
+				if !ok {
+					if w != mustMiss {
+						bad = fmt.Sprintf("%s: %s missed; block d%d's chain holds %s and nothing can have been evicted", desc, what, i, w)
+					}
+					return bad == ""
+				}
+				got := render(v)
+				if w == mustMiss || got != w {
+					bad = fmt.Sprintf("%s: %s returned %s; the chain of d%d determines %s", desc, what, got, i, showTruth(w))
+					return false
+				}
+				mutate(v) // the caller owns what it was handed
+				return true
+			}
+			tip := n - 1
+			order := []int{tip, tip, tip / 2, 0, tip}
+			for i := 0; i < n; i++ {
+				order = append(order, i)
+			}
+			order = append(order, tip)
+			okAll := true
+			for _, i := range order {
+				v, ok := sc.Get("k", name(i))
+				if !judge(fmt.Sprintf("StateCache.Get(k,d%d)", i), v, ok, i) {
+					okAll = false
+					break
+				}
+			}
+			if okAll {
+				child := statecache.NewBlockCache(sc, statecache.Block{Hash: "child", PrevHash: name(tip)})
+				for pass := 0; pass < 2 && okAll; pass++ {
+					v, ok := child.Get("k")
+					okAll = judge("a child block's BlockCache.Get(k)", v, ok, tip)
+					if okAll {
+						v, ok = statecache.NewTransactionCache(child).Get("k")
+						okAll = judge("a child block's TransactionCache.Get(k)", v, ok, tip)
+					}
+					if okAll {
+						v, ok = statecache.NewQueryBlockCache(sc, name(tip)).Get("k")
+						okAll = judge("QueryBlockCache(tip).Get(k)", v, ok, tip)
+					}
+				}
+			}
+			if bad != "" {
+				rep.Violate(bad, map[string]any{"scenario": desc})
+				break // deeper chains fail alike
+			}
+		}
+	}
+}
+
+// manyKeysScenario: ONE block that writes / removes a large number of distinct keys (70000, far above any
+// small bound inside the block cache) over a parent that holds an older value for every one of them; every
+// key is looked up through the open block, after the block's commit, and from a child block.
+func manyKeysScenario(rep *rt.Report, nKeys int) {
+	sc := statecache.NewStateCache()
+	parent := statecache.NewBlockCache(sc, statecache.Block{Hash: "p", PrevHash: "p-root"})
+	ptc := statecache.NewTransactionCache(parent)
+	key := func(i int) string { return fmt.Sprintf("key-%d", i) }
+	for i := 0; i < nKeys; i++ {
+		ptc.Set(key(i), statecache.String("old"))
+	}
+	ptc.Commit()
+	parent.Commit()
+	bc := statecache.NewBlockCache(sc, statecache.Block{Hash: "b", PrevHash: "p"})
+	tc := statecache.NewTransactionCache(bc)
+	wantOf := func(i int) string {
+		if i%3 == 2 {
+			return mustMiss // removed by the block
+		}
+		return fmt.Sprintf("new-%d", i)
+	}
+	for i := 0; i < nKeys; i++ {
+		if i%3 == 2 {
+			tc.Remove(key(i))
+		} else {
+			tc.Set(key(i), statecache.String(fmt.Sprintf("new-%d", i)))
+		}
+		if i%1000 == 999 {
+			tc.Commit() // transactions of 1000 writes each
+			tc = statecache.NewTransactionCache(bc)
+		}
+	}
+	tc.Commit()
+	rep.Add("capacity_scenarios", 1)
+	desc := fmt.Sprintf("one block writing/removing %d distinct keys over a parent holding an older value for each", nKeys)
+	check := func(stage string, get func(k string) (statecache.Value, bool), mustHit bool) bool {
+		for i := 0; i < nKeys; i++ {
+			v, ok := get(key(i))
+			w := wantOf(i)
+			switch {
+			case !ok && w != mustMiss && mustHit:
+				rep.Violate(fmt.Sprintf("%s: %s: lookup of key %d missed; the block wrote %s itself", desc, stage, i, w), map[string]any{"scenario": desc})
+				return false
+			case ok && (w == mustMiss || render(v) != w):
+				rep.Violate(fmt.Sprintf("%s: %s: lookup of key %d returned %s; the block's own write is %s", desc, stage, i, render(v), showTruth(w)), map[string]any{"scenario": desc})
+				return false
+			}
+		}
+		return true
+	}
+	if !check("through the open block", bc.Get, true) {
+		return
+	}
+	bc.Commit()
+	// the state cache holds 100*1024 keys at most: with nKeys below that nothing is evicted
+	if !check("after the block's commit, StateCache.Get at the block", func(k string) (statecache.Value, bool) { return sc.Get(k, "b") }, nKeys <= 90000) {
+		return
+	}
+	child := statecache.NewBlockCache(sc, statecache.Block{Hash: "c", PrevHash: "b"})
+	check("from a child block", child.Get, nKeys <= 90000)
+}
